@@ -13,7 +13,7 @@ HOSTILE = [b"contract Broken { function (", b"\x00\x9f\x92\x96\x00\xff\xfe\n\x00
 
 def contents():
     d = os.path.join(ROOT, "corpus", "dirwalk")
-    return {c: open(os.path.join(d, c + ".sol"), "rb").read() for c in ("c1", "c2", "c3", "c4", "c5", "c6", "c8")}
+    return {c: open(os.path.join(d, c + ".sol"), "rb").read() for c in ("c1", "c2", "c3", "c4", "c5", "c6", "c8", "c9")}
 
 
 def eligible(name):
@@ -65,6 +65,12 @@ def run_trees(chk, hb, sb, trees, catalogue, workdir):
             a, b = os.path.join(base, ra), os.path.join(base, rb)
             materialise(a, tree, cont, True)
             materialise(b, tree, cont, False)
+            # what a project directory holds besides contracts (version control, tool configuration -- among it a
+            # Solstat.toml nobody named on the command line): inert
+            for base_dir in (a, b):
+                for sub, _dirs, _files in list(os.walk(base_dir)):
+                    if ".git" not in sub:
+                        bindrive.furnish(sub)
             listing_differs = sorted(os.listdir(a)) == sorted(os.listdir(b)) and os.listdir(a) != os.listdir(b)
 
             def toml(names_of):
